@@ -277,6 +277,17 @@ func runC06(c *Ctx) {
 						"expiry reset in the step that marks the provider as present", "provider marked present without clearing its expiry: it is dropped at the next absence instead of after the time-to-live")
 					// …and the mark is made for every cached provider the source still reports, newer record or not: between
 					// finding the record in the write map and marking it there is no other test
+					if par, isPar := strip(a.Args[0]).V.(*ssa.Parameter); isPar && par.Parent() == st.Parent() {
+						// a step helper handed the cached record: the mark is the first thing it does, under no test of its own
+						extra := token.NoPos
+						for _, f := range c.FactsAt(st.Block()) {
+							if f.If != nil && f.If.Parent() == st.Parent() {
+								extra = f.If.Cond.Pos()
+							}
+						}
+						c.Check(!extra.IsValid(), "C06.P3-ttl", w.Name+" › every reported provider marked present", st.Pos(),
+							"the helper handed the cached record marks it present under no test of its own", "the 'still present' mark is made only under a further test (at "+c.pos(extra)+"): a provider the source keeps reporting unchanged counts as gone and expires after the time-to-live")
+					}
 					if ex, isEx := strip(a.Args[0]).V.(*ssa.Extract); isEx && ex.Index == 0 {
 						if lk, isLk := ex.Tuple.(*ssa.Lookup); isLk && lk.CommaOk {
 							at := map[*ssa.If]bool{}
